@@ -66,6 +66,8 @@ def default_cfg(**over):
         eager=False,
         early=False,
         finter=False,
+        quad=('RADAU-RIGHT',),  # quadrature type per level (last entry repeating)
+        node_type=('LEGENDRE',),  # node family per level
     )
     cfg.update(over)
     return cfg
@@ -90,7 +92,8 @@ def describe(cfg, sweeper_comm=None):
     else:
         sclass = generic_implicit if cfg['sweeper'] == 'implicit' else imex_1st_order
         nodes = [M - i for i in range(L)] if (L > 1 and cfg['kind'] == 'time') else M
-    sweeper_params = {'quad_type': 'RADAU-RIGHT', 'num_nodes': nodes, 'QI': cfg['QI'], 'initial_guess': cfg['initial_guess']}
+    quad, ntype = list(cfg.get('quad') or ('RADAU-RIGHT',)), list(cfg.get('node_type') or ('LEGENDRE',))
+    sweeper_params = {'quad_type': quad if len(quad) > 1 else quad[0], 'node_type': ntype if len(ntype) > 1 else ntype[0], 'num_nodes': nodes, 'QI': cfg['QI'], 'initial_guess': cfg['initial_guess']}
     if cfg['sweeper'] == 'imex':
         sweeper_params['QE'] = 'PIC'
     if sweeper_comm is not None:
@@ -249,6 +252,9 @@ def compare(cfg, serial, ranks):
             rows = list(uniq.values())
         rows.sort(key=lambda r: (r[0], r[1]))
         merged[typ] = rows
+    # a residual is a difference of quantities of the size of the solution: its rounding error scales with |u|, not with
+    # the residual itself (the reductions of the MPI flavour sum in another order than the serial loops)
+    uscale = max([float(np.max(np.abs(np.asarray(r[3])))) for r in serial['stats'].get('u', []) if np.size(r[3])] + [1.0])
     for typ, srows in serial['stats'].items():
         mrows = merged[typ]
         if len(srows) != len(mrows):
@@ -262,6 +268,8 @@ def compare(cfg, serial, ranks):
                 if s[3] != m[3]:
                     out.append((typ, {'time': s[0], 'serial': s[3], 'mpi': m[3]}))
                     break
+            elif typ.startswith('residual') and float(np.max(np.abs(np.asarray(s[3]) - np.asarray(m[3])))) <= 1e-13 * uscale:
+                continue
             elif not _close(s[3], m[3]):
                 out.append((typ + '_value', {'time': s[0], 'max_diff': float(np.max(np.abs(np.asarray(s[3]) - np.asarray(m[3]))))}))
                 break
